@@ -121,7 +121,7 @@ WORLD_RULE = ("whole-system runs: rtr_mgr with 1-2 sockets (real FSM threads, re
 
 
 # metamorphic runs end at a fixed simulated time and are not truncated by the step budget
-_MM = {"end.mode": "time", "end.max_s": 2500, "soft_steps": 1000000000, "sim.max_steps": 40000000}
+_MM = {"end.mode": "time", "end.max_s": 2500, "end.max_queries": 3000, "soft_steps": 1000000000, "sim.max_steps": 40000000}
 
 
 def _world(focus, name=None, **kw):
@@ -138,6 +138,7 @@ PROPS.update({
             "one fault: every receive call x {error, EINTR}, the query's send x {error, EINTR, would-block}, every PDU position x 18 protocol deviations, "
             "cuts at 25 byte offsets x {close, stall}, hang-up, silence, Cache Reset (thorough: all points of every base; quick: a stratified sample).",
             "suites": [_world("C03", runs_quick=900, time_quick=25),
+                       _world("C03", name="world-C03-pair", opts={"focus": "C03", "pair": 1}, runs_quick=500, time_quick=15, runs_thorough=40000, time_thorough=300),
                        {"name": "world-C03-sweep", "kind": "faultsweep", "scn": "world", "variant": "asan", "opts": {"focus": "C03", "single": 1, "clean": 1, "maxx": 5},
                         "runs_quick": 12, "time_quick": 30, "k_per_base_quick": 120, "runs_thorough": 150, "time_thorough": 600}],
             "min_counters": {"sync_audits": 500, "faultsweep_points": 500},
